@@ -612,7 +612,7 @@ def do_mapping(molecule, mappings, to_ff, attribute_keep=(), attribute_must=(), 
                  mod_sort_key(mod_matches[-1]) < block_sort_key(block_matches[-1]))):
             match = mod_matches.pop(-1)
             known_nodes = set(graph_out.nodes)
-            last_resid = graph_out.nodes[graph_out.max_node].get('resid', 1) if known_nodes else 0
+            last_resid = graph_out.nodes[max(known_nodes)].get('resid', 1) if known_nodes else 0
             applied_interactions, refs = apply_mod_mapping(match,
                                                            molecule, graph_out,
                                                            mol_to_out, out_to_mol)
